@@ -65,6 +65,51 @@ def main():
     ap.add_argument("--tier", default="quick")
     ap.add_argument("--needs", default="")
     a = ap.parse_args()
+    if a.cmd == "refresh":
+        # re-base the stored patch on the current HEAD of /repo (plain `git apply` must work) and confirm it again
+        id_ = a.args[0]
+        dst = os.path.join(V, "seeded", id_)
+        meta = json.load(open(os.path.join(dst, "meta.json")))
+        w = worktree(id_)
+        try:
+            head = sh("git -C /repo rev-parse --short HEAD")[1].strip()
+            rc, _ = sh("git apply --check --whitespace=nowarn %s" % os.path.join(dst, "patch.diff"), cwd=w)
+            plain = rc == 0
+            def place():
+                for stored, dest in meta["demos"]:
+                    os.makedirs(os.path.dirname(os.path.join(w, dest)), exist_ok=True)
+                    shutil.copy(os.path.join(dst, stored), os.path.join(w, dest))
+            def unplace():
+                for stored, dest in meta["demos"]:
+                    try:
+                        os.remove(os.path.join(w, dest))
+                    except FileNotFoundError:
+                        pass
+            place()
+            rc0, out0 = sh(meta["demo_cmd"], cwd=w)
+            unplace()
+            rc, out = apply_patch(w, os.path.join(dst, "patch.diff"))
+            if rc:
+                print("%s: REFRESH FAILED, patch does not apply to %s: %s" % (id_, head, out[-300:]))
+                return
+            sh("git reset -q", cwd=w)
+            _, diff = sh("git diff", cwd=w)
+            rc1, out1 = sh("go build ./... && go test -vet=off -count=1 ./...", cwd=w)
+            place()
+            rc2, out2 = sh(meta["demo_cmd"], cwd=w)
+            unplace()
+            ok = rc0 == 0 and rc1 == 0 and rc2 != 0
+            print("%s: head=%s plain_apply=%s demo_clean=%s suite=%s demo_mutant=%s -> %s" % (id_, head, plain, "pass" if rc0 == 0 else "FAIL", "pass" if rc1 == 0 else "FAIL", "fail" if rc2 else "PASSES", "CONFIRMED" if ok else "NOT CONFIRMED"))
+            if not ok:
+                print(out0[-500:] if rc0 else "", out1[-500:] if rc1 else "")
+                return
+            if not plain:
+                open(os.path.join(dst, "patch.diff"), "w").write(diff)
+            meta.update(base_commit=head, patch_applies=True, demo_without_change="pass", suite_with_change="pass", demo_with_change="fail", confirmed=True)
+            json.dump(meta, open(os.path.join(dst, "meta.json"), "w"), indent=1)
+        finally:
+            drop(w)
+        return
     if a.cmd == "ingest":
         src, id_, prop = a.args
         dst = os.path.join(V, "seeded", id_)
